@@ -56,7 +56,7 @@ pub const STMTS: &[&str] = &[
     "Sub0();", "Sub1(1, 2.0, 3.0);", "Sub0(1);", "int r = Sub0();", "@Sub0();", "Sub0() async;", "timeline0();", "script0();", "main();",
     "void inner() { }\ninner();", "void inner(int a) { ins_1(a); }\ninner(3);", "inline void inl() { }\ninl();", "const int cf() { return 1; }\nint q = cf();", "int fwd();", "void inner2() { void inner3() { } inner3(); }",
     "return;", "return 1;", "break;", "goto nowhere;", "goto end @ 5;", "end:", "if (1) break;", "times(3) { break; }", "loop { }", "do { } while (0);",
-    "int x; int x;", "int y = y;", "float z = 1;", "const int K = 1 / 0;", "const int K2 = K2;", "var v;", "x = 1;", "$F0 = 1;", "REG[100] = 1;", "$REG[-10001] = %REG[-10005];", "$REG[10000] = $REG[10000] + $REG[10001] * ($REG[10002] - 1);",
+    "int x; int x;", "int y = y;", "float z = 1;", "const int K = 1 / 0;", "const int K2 = K2;", "const int Z0 = 0;\nconst int K3 = 7 / Z0;", "const int K4 = 7 % (3 - 3);", "const int K5 = 1 / -0;", "const float KF = 1.0 / 0.0;", "const int K6 = (1 << 31) / -1;", "const int K7 = -2147483648 % -1;", "var v;", "x = 1;", "$F0 = 1;", "REG[100] = 1;", "$REG[-10001] = %REG[-10005];", "$REG[10000] = $REG[10000] + $REG[10001] * ($REG[10002] - 1);",
     "interrupt[1]:", "interrupt[-1]:", "+10:", "-5:", "2147483647:", "+2147483647:", "{\"E\"}: Sub0();", "{\"EN\"}: ins_1();", "{\"*-E\"}: { ins_1(); }", "ins_1(1:2:3:4);", "ins_1((1:2):3);",
     "ins_65535();", "ins_65536();", "ins_0(@blob=\"00\");", "ins_1(@mask=1, @blob=\"\");", "ins_1(@arg0=5);", "ins_1(@pop=1);", "ins_1(@nargs=2);", "ins_1(@blob=\"00000000\", 1);", "ins_1(offsetof(end), timeof(end));",
     "ins_1(sprite0);", "ins_1(script0);", "ins_1(\"a\");", "ins_1(1.5);", "ins_1(x ? 1 : 2);", "ins_1(-x);", "ins_1(sin(1.0));", "ins_1(_S(1.5));", "ins_1(_f(1));", "ins_1($x);", "ins_1(%x);",
